@@ -117,9 +117,12 @@ def t_catch_soft(tag, dur, catch=True, step=0.02):
     log('task_start', tag=tag)
     seen = 0
     t_end = time.monotonic() + dur
-    while time.monotonic() < t_end:
+    while True:
+        # the whole loop is inside the try: the signal can arrive at any bytecode
         try:
-            time.sleep(step)
+            while time.monotonic() < t_end:
+                time.sleep(step)
+            break
         except SoftTimeLimitExceeded:
             seen += 1
             log('soft_seen', tag=tag, n=seen)
